@@ -1,2 +1,359 @@
-// Package c10: check for property C10 (see /verif/DESIGN.md §3 C10).
+// Package c10: aggregating verbs equal first-principles recomputation, group
+// by group (see /verif/DESIGN.md §3 C10).
+//
+// Technique: bounded exhaustive enumeration of small record streams over a
+// fixed alphabet, each run through the real verb in-process (vf.RunMlr, DKVP
+// in and out with ';' as field separator so that values may contain commas),
+// and every output cell compared with a reference written from the verb usage
+// texts / function help: exact rational arithmetic (math/big) for sums and
+// moments, the documented index rules for percentiles, naive list algorithms
+// for grouping.
 package c10
+
+import (
+	"fmt"
+	"os"
+	"sort"
+	"strings"
+	"time"
+
+	"verif/harness/vf"
+)
+
+func init() {
+	vf.Register(&vf.CheckDef{ID: "C10", Level: "model_checking", Run: run,
+		Workers: map[string]vf.WorkerFunc{
+			"stats1": stats1Worker,
+			"pct":    pctWorker,
+			"group":  groupWorker,
+			"step":   stepWorker,
+			"merge":  mergeWorker,
+			"dsl":    dslWorker,
+		}})
+}
+
+// ---------------------------------------------------------------- records
+
+type kv struct{ K, V string }
+type rec []kv
+
+func (r rec) get(k string) (string, bool) {
+	for _, e := range r {
+		if e.K == k {
+			return e.V, true
+		}
+	}
+	return "", false
+}
+
+func (r rec) has(k string) bool { _, ok := r.get(k); return ok }
+
+func (r rec) String() string {
+	parts := make([]string, len(r))
+	for i, e := range r {
+		parts[i] = e.K + "=" + e.V
+	}
+	return strings.Join(parts, ";")
+}
+
+func (r rec) without(keys ...string) rec {
+	out := make(rec, 0, len(r))
+outer:
+	for _, e := range r {
+		for _, k := range keys {
+			if e.K == k {
+				continue outer
+			}
+		}
+		out = append(out, e)
+	}
+	return out
+}
+
+func recEq(a, b rec) bool {
+	if len(a) != len(b) {
+		return false
+	}
+	for i := range a {
+		if a[i] != b[i] {
+			return false
+		}
+	}
+	return true
+}
+
+func encode(recs []rec) string {
+	var sb strings.Builder
+	for _, r := range recs {
+		sb.WriteString(r.String())
+		sb.WriteByte('\n')
+	}
+	return sb.String()
+}
+
+func streamText(recs []rec) string {
+	parts := make([]string, len(recs))
+	for i, r := range recs {
+		parts[i] = r.String()
+	}
+	return strings.Join(parts, " / ")
+}
+
+// decode parses DKVP output with ';' as the field separator. An empty line is
+// an empty record.
+func decode(s string) []rec {
+	var out []rec
+	if s == "" {
+		return out
+	}
+	s = strings.TrimSuffix(s, "\n")
+	for _, line := range strings.Split(s, "\n") {
+		var r rec
+		if line != "" {
+			for _, f := range strings.Split(line, ";") {
+				k, v, ok := strings.Cut(f, "=")
+				if !ok {
+					// DKVP writes a key-less field for positional data; never expected here
+					k, v = "\x00nokey", f
+				}
+				r = append(r, kv{k, v})
+			}
+		}
+		out = append(out, r)
+	}
+	return out
+}
+
+var baseFlags = []string{"--ifs", ";", "--ofs", ";"}
+
+// run1 runs `mlr --ifs ; --ofs ; <args>` on the stream.
+func run1(args []string, in []rec) ([]rec, vf.MlrResult) {
+	text := encode(in)
+	full := append(append([]string{}, baseFlags...), args...)
+	r := vf.RunMlr(full, vf.MlrOpts{Stdin: &text})
+	return decode(r.Stdout), r
+}
+
+func cmdline(args []string, in []rec) string {
+	q := make([]string, len(args))
+	for i, a := range args {
+		if a == "" || strings.ContainsAny(a, " $^*[](){}'\"|;<>") {
+			q[i] = "'" + a + "'"
+		} else {
+			q[i] = a
+		}
+	}
+	lines := make([]string, len(in))
+	for i, r := range in {
+		lines[i] = r.String()
+	}
+	return fmt.Sprintf("printf '%%s\\n' %s | mlr --ifs ';' --ofs ';' %s", quoteEach(lines), strings.Join(q, " "))
+}
+
+func quoteEach(l []string) string {
+	q := make([]string, len(l))
+	for i, s := range l {
+		q[i] = "'" + s + "'"
+	}
+	return strings.Join(q, " ")
+}
+
+// ---------------------------------------------------------------- case driver
+
+// T wraps a worker with block-wise sharding and violation helpers.
+type T struct {
+	w      *vf.Worker
+	cases  uint64
+	block  uint64
+	curBlk uint64
+	mine   bool
+	base   uint64 // idx offset of this family
+	label  string
+
+	collision bool // current stream has colliding group-by joins
+	perClause map[string]int
+}
+
+func newT(w *vf.Worker) *T { return &T{w: w, curBlk: ^uint64(0), block: 64} }
+
+// family starts a new index range (so that shards stay balanced across families).
+func (t *T) family(name string, block uint64) {
+	t.base += t.cases/t.block + 1
+	t.cases = 0
+	t.block = block
+	t.curBlk = ^uint64(0)
+	t.label = name
+}
+
+// next reports whether the next case belongs to this worker.
+func (t *T) next() bool {
+	blk := t.base + t.cases/t.block
+	t.cases++
+	if blk != t.curBlk {
+		t.curBlk = blk
+		t.mine = t.w.Mine(blk)
+		if t.mine {
+			t.w.Begin(blk)
+			name, b := t.label, blk
+			t.w.Label(func() string { return fmt.Sprintf("family %s block %d", name, b) })
+		}
+	}
+	return t.mine
+}
+
+// perClauseCap bounds the witnesses one shard reports per clause: a defect
+// that is present shows up on thousands of streams; the enumeration is
+// simplest-first, so the first witnesses are the smallest ones.
+const perClauseCap = 2
+
+// viol records a violation. clause: "verb.clause"; detail: flags and stream.
+func (t *T) viol(clause string, args []string, in []rec, what string, out string) {
+	if t.collision {
+		// the stream holds two different group-by tuples whose comma-joined texts coincide: report under one heading
+		clause = "group-text-collision." + strings.SplitN(clause, ".", 2)[0]
+	}
+	if t.perClause == nil {
+		t.perClause = map[string]int{}
+	}
+	t.perClause[clause]++
+	if f := os.Getenv("VERIF_C10_DUMP"); f != "" {
+		if fh, err := os.OpenFile(f, os.O_APPEND|os.O_CREATE|os.O_WRONLY, 0644); err == nil {
+			fmt.Fprintf(fh, "%s\t%s\t%s\n", clause, what, cmdline(args, in))
+			fh.Close()
+		}
+	}
+	if t.perClause[clause] > perClauseCap {
+		t.w.Count("further_witnesses:"+clause, 1)
+		return
+	}
+	key := fmt.Sprintf("%s(%s|%s)", clause, strings.Join(args, " "), streamText(in))
+	t.w.Violation(key, what+" :: "+cmdline(args, in), map[string]any{
+		"args": args, "input": encode(in), "command": cmdline(args, in), "what": what, "stdout": out,
+	})
+}
+
+// ---------------------------------------------------------------- sequences
+
+// forEachSeq calls f with every sequence over {0..nsym-1} of length 0..maxLen,
+// shortest first, lexicographic within a length.
+func forEachSeq(nsym, minLen, maxLen int, f func(seq []int)) {
+	for n := minLen; n <= maxLen; n++ {
+		seq := make([]int, n)
+		for {
+			f(seq)
+			i := n - 1
+			for i >= 0 {
+				seq[i]++
+				if seq[i] < nsym {
+					break
+				}
+				seq[i] = 0
+				i--
+			}
+			if i < 0 {
+				break
+			}
+		}
+	}
+}
+
+const absent = "\x00absent"
+
+// mkrec builds a record from (key, value) pairs, leaving out absent values.
+func mkrec(pairs ...string) rec {
+	var r rec
+	for i := 0; i+1 < len(pairs); i += 2 {
+		if pairs[i+1] != absent {
+			r = append(r, kv{pairs[i], pairs[i+1]})
+		}
+	}
+	return r
+}
+
+func sortedKeys(m map[string]bool) []string {
+	out := make([]string, 0, len(m))
+	for k := range m {
+		out = append(out, k)
+	}
+	sort.Strings(out)
+	return out
+}
+
+// ---------------------------------------------------------------- orchestrator
+
+func run(c *vf.Ctx) {
+	c.Rule = "every record stream of length <= n over the stated value/group alphabets (absent, empty, int, float, string, comma-bearing and numeric-looking group texts), simplest first, x every verb configuration in the stated lists; each (stream, configuration) pair is one evaluation and all pairs are distinct by construction; a case is non-trivial when at least one output cell was compared with a reference value (cells the documentation does not determine are counted as unconstrained and not asserted)"
+	c.Assume("value alphabet is small ints, dyadic floats (exactly representable), one string, empty and absent; floating moments are compared with exact rational recomputation at relative tolerance 1e-9; cancellation on ill-conditioned data is outside the bound")
+	c.Assume("an empty value is treated as 'missing' for sum/mean/var/.../min/max/percentiles (reference-main-null-data.md); for count/distinct_count/mode/antimode/minlen/maxlen the usage text does not say whether empties are counted, so both readings are accepted and such cells are counted as empty_policy_cells")
+	c.Assume("non-interpolated percentiles: index int(p*n/100) clamped (function-help examples) ; where p*n/100 is an exact integer k the usage text ('like R type=1' = x[k-1]) and the function-help example median([3,4,5,6,9,10])=6 (= x[k]) disagree, so either neighbour is accepted there")
+	c.Assume("interpolated percentiles, sums, means and moments over data containing a non-numeric string are not asserted (usage: 'the rest require numeric input')")
+	c.Assume("skewness and kurtosis follow the function-help examples: m3/(s^2)^1.5 with s^2 the (n-1)-variance, and m4/m2^2-3 with m2 the n-variance; undefined (variance 0) cells are not asserted")
+	c.Assume("tie order among equally frequent values in most-frequent/least-frequent and among equal values in top -a is not asserted (predicate: counts sorted, every pair correct, multiset of counts equals the top-k)")
+	c.Assume("step: the first ratio value, and every history-dependent stepper value after a record lacking the value field or holding an empty/non-numeric value in the same group, are not asserted")
+	c.Assume("stats1 -s: what happens to a record lacking a group-by field is not stated and not asserted (for -w the usage text promises one output record per input record, which is asserted)")
+	c.Assume("DSL: sum/mean/variance/... over a collection holding a non-numeric string, and order statistics over a collection holding an empty string, are not asserted; the sparkline function is not covered")
+	c.Assume("histogram: a value exactly on an inner bin edge may fall on either side when nbins/(hi-lo) is not exactly representable; --auto on a zero-width range is not asserted; fraction over a zero group sum is not asserted")
+	c.Assume("fill-down --all: whether fields absent from the current record are filled is not stated and not asserted; count-similar: whether records lacking a group-by field are passed or dropped is not stated and not asserted")
+	c.Assume("per clause and worker shard only the first 2 witnesses (the simplest, enumeration is simplest-first) are listed as violations; the rest are counted in further_witnesses_per_clause_not_listed")
+	c.Assume("stats2, summary, bar, sparkline, sec2gmt-style formatting and --ofmt are not covered")
+
+	type fam struct {
+		name   string
+		shards int
+	}
+	all := map[string]*vf.PoolResult{}
+	walls := map[string]float64{}
+	for _, f := range []fam{{"pct", 32}, {"stats1", 128}, {"group", 256}, {"step", 128}, {"merge", 64}, {"dsl", 64}} {
+		t0 := time.Now()
+		all[f.name] = c.RunPool(vf.PoolSpec{Worker: f.name, Shards: f.shards})
+		walls[f.name] = time.Since(t0).Seconds()
+	}
+	c.Extra["pool_wall_s"] = walls
+	hits := map[string]int64{}
+	for k, v := range c.Counters {
+		if strings.HasPrefix(k, "hit:") {
+			hits[strings.TrimPrefix(k, "hit:")] = v
+		}
+	}
+	c.Extra["hits_per_symbol_verb_flag"] = hits
+	never := []string{}
+	for _, name := range expectedHits() {
+		if hits[name] == 0 {
+			never = append(never, name)
+		}
+	}
+	sort.Strings(never)
+	c.Extra["never_exercised"] = never
+	for k := range c.Counters {
+		if strings.HasPrefix(k, "unknown_accumulator:") || strings.HasPrefix(k, "unknown_stepper:") {
+			c.Broken("the accumulator/stepper table holds a name this check has no reference for: %s", k)
+		}
+	}
+	further := map[string]int64{}
+	for k, v := range c.Counters {
+		if strings.HasPrefix(k, "further_witnesses:") {
+			further[strings.TrimPrefix(k, "further_witnesses:")] = v
+		}
+	}
+	c.Extra["further_witnesses_per_clause_not_listed"] = further
+	if len(never) > 0 {
+		c.Broken("vacuity guard: symbols/verbs/flags never exercised: %v", never)
+	}
+	outcomes := 0
+	for _, r := range all {
+		outcomes += vf.SetSize(r, "outcomes")
+	}
+	c.Extra["distinct_outcomes_sampled"] = outcomes
+	c.Extra["cells_compared"] = c.Counters["cells"]
+	c.Extra["cells_unconstrained"] = c.Counters["unconstrained"]
+	c.Extra["empty_policy_cells"] = c.Counters["empty_policy_cells"]
+	c.Extra["percentile_boundary_cells_either_neighbour"] = c.Counters["pct_boundary"]
+	if c.Quick() {
+		c.Extra["bounds"] = "quick: value streams n<=4 over 9 symbols (stats1 incl. -i/-w 1..3/-s, step, merge-fields 4 fields / 2 records x 2 fields, DSL lists n<=4 over 8 symbols as array and map); group streams n<=3 over 6 group texts x 5 values, 9 (g,h) pairs x 3 values, 2 groups x 3 x 3 (x,y) values; percentiles p=0..100 (+11 fractional/synonym names) x n=1..8 x 3 ladders asc/desc + all tie patterns over 3 values + all permutations n<=5, both interpolation modes"
+	} else {
+		c.Extra["bounds"] = "thorough: value streams n<=5 over 9 symbols; merge-fields 4 fields, 2 records x 2 fields, 3 records over 5 symbols; DSL lists n<=5; group streams n<=3 over the full alphabets plus n=4 over thinned alphabets (one field: 5 group texts x {1,2.5,absent}; two fields: 7 pairs x {1,2.5}; two values: 2 groups x 3 x 3); percentiles n=1..10, permutations n<=6"
+	}
+	c.Extra["accumulator_table"] = accumulatorNames()
+	c.Extra["stepper_table"] = stepperNames()
+	// DistinctNontrivial is summed from the workers (Nontrivial per case with >= 1 compared cell)
+}
